@@ -202,3 +202,52 @@ def run(tier, assumptions):
                               post=route_histogram)
     finally:
         inst_check.ig = saved
+
+
+def load_replay(path):
+    """replay files store tuples as JSON lists: turn every list below the case's
+    top-level containers back into a tuple (types, values, operations)"""
+    import json
+    r = json.load(open(path))
+
+    def tup(x):
+        if isinstance(x, list):
+            return tuple(tup(y) for y in x)
+        if isinstance(x, dict):
+            return {k: tup(v) for k, v in x.items()}
+        return x
+    table = []
+    for c in r["table"]:
+        c = {k: (tup(v) if k != "attrs" else [{ak: tup(av) for ak, av in a.items()} for a in v]) for k, v in c.items()}
+        for a in c["attrs"]:
+            if "inv_by" in a:
+                a["inv_by"] = list(a["inv_by"])
+        table.append(c)
+    ops = []
+    for op, fa in r["ops"]:
+        op = list(op)
+        if op[0] == "helper":
+            h = {k: tup(v) for k, v in op[3].items()}
+            for k in ("pos", "kw", "kwfn"):
+                if h.get(k) is not None:
+                    h[k] = list(h[k])
+            op = ("helper", op[1], tup(op[2]), h)
+        elif op[0] == "construct":
+            op = ("construct", op[1], tup(op[2]), [tup(p) for p in op[3]])
+        else:
+            op = tup(op)
+        ops.append((op, fa))
+    return {"table": table, "ops": ops, "nd": r["nd"]}
+
+
+def replay(path):
+    import inst_common as ic
+    case = load_replay(path)
+    bad, logs = ic.evaluate("C03", [case], tag="r")
+    failing = bool(bad and bad[0][1] & (8 | 1))
+    print("replay:", ("still failing, mask=%d" % bad[0][1]) if failing else "passes now", logs[:1])
+    r, err = ic.run_case(case)
+    if r:
+        for (op, fa), o in zip(case["ops"], r[1]):
+            print("  ", op, fa, "->", o[0])
+    return 1 if failing or logs else 0
